@@ -46,6 +46,11 @@ type RegistrationManager struct {
 	LivenessTester   liveness.Tester
 	GeoIP            geoip.Database
 
+	// reloadLock guards PhantomSelector and GeoIP once the manager is running: OnReload
+	// replaces them while ingest workers and connection handlers use them. Read them
+	// through GetPhantomSelector and GetGeoIP.
+	reloadLock sync.RWMutex
+
 	// ConnectingStats records stats related to connecting transports
 	connectingStats ConnectingTpStats
 
@@ -105,7 +110,9 @@ func (regManager *RegistrationManager) OnReload(conf *RegConfig) {
 	if err != nil {
 		regManager.Logger.Errorf("failed to reload phantom subnets: %v", err)
 	} else {
+		regManager.reloadLock.Lock()
 		regManager.PhantomSelector = p
+		regManager.reloadLock.Unlock()
 	}
 
 	// if we made it here via sigHUP then the RegConfig.ParseBlocklists should
@@ -139,7 +146,27 @@ func (regManager *RegistrationManager) OnReload(conf *RegConfig) {
 		return
 	}
 
+	regManager.reloadLock.Lock()
 	regManager.GeoIP = geoipDB
+	regManager.reloadLock.Unlock()
+}
+
+// GetPhantomSelector returns the phantom selector currently in use. It is safe to call while
+// the configuration is being reloaded.
+func (regManager *RegistrationManager) GetPhantomSelector() *phantoms.PhantomIPSelector {
+	regManager.reloadLock.RLock()
+	defer regManager.reloadLock.RUnlock()
+
+	return regManager.PhantomSelector
+}
+
+// GetGeoIP returns the GeoIP database currently in use. It is safe to call while the
+// configuration is being reloaded.
+func (regManager *RegistrationManager) GetGeoIP() geoip.Database {
+	regManager.reloadLock.RLock()
+	defer regManager.reloadLock.RUnlock()
+
+	return regManager.GeoIP
 }
 
 // AddTransport initializes a transport so that it can be tracked by the manager when
